@@ -131,6 +131,7 @@ func runC20(c *core.Ctx) {
 	if fn := c.Fn(pkCCM, "ImportExTransfer"); fn != nil {
 		checkNilParamGate(c, fn, mdp)
 	}
+	checkBtcTxId(c)
 }
 
 // sameValue: identical SSA values after stripping conversions, or loads of
